@@ -4,7 +4,5 @@ import SPProofs.Comb.Base
 import SPProofs.Comb.Radix
 import SPProofs.Comb.Perm
 import SPProofs.Comb.Choose
-
-namespace SPModel.Comb
-
-end SPModel.Comb
+import SPProofs.Comb.Multi
+import SPProofs.Comb.Prefix
